@@ -100,7 +100,7 @@ func main() {
 	r := ev.Start("C03")
 	defer r.RecoverMain()
 	defer world.Cleanup()
-	r.SetBudget(ev.Pick(r, 240*time.Second, 45*time.Minute))
+	r.SetBudget(ev.Pick(r, 420*time.Second, 45*time.Minute))
 	r.Assume("steady state: initial content was written and mirrored by a previous complete sync step; all remote versions are older than anything the application writes, so any change of an application-written key is a violation",
 		"goroutine scheduling follows a fixed policy (background downloads run to completion before the loop continues); the explored choices are the environment's answers: application commits at every loop hook, straddling application transactions, remote snapshot arrival")
 	bound := ev.Pick(r, 2, 3)
